@@ -475,7 +475,7 @@ func c11HugeUnion(c *Case) {
 		if ce == nil {
 			return
 		}
-		got := c.RunSelect(ce, d.Root)
+		got := c.RunSelectLimit(ce, d.Root, 20*OpLimit) // legitimate cost 6e7 ... 3e8 operations: a budget of 4e9
 		gs, dup := AsSet(got.Nodes)
 		c.Count("hugeunion")
 		if got.Aborted() || dup || len(gs) != ex.want {
